@@ -45,9 +45,9 @@ func obsTags(o TextObs, texts []c17.PkgText) []string {
 		case o.Stage == "panic" && strings.Contains(o.Err, "nil pointer dereference") && hasViewOfJob(texts):
 			tags = append(tags, "C16-F4:view-result-of-job-nil-dereference") // fixed a6c74ddce: a regression
 		case o.Stage == "died" && strings.Contains(o.Err, "stack") && strings.Contains(o.Err, "fillTable"):
-			tags = append(tags, "C16-F11:system-table-on-inherits-cycle-stack-overflow")
+			tags = append(tags, "C16-F11:system-table-on-inherits-cycle-stack-overflow") // fixed 0a0d68cc1: a regression
 		case o.Stage == "died" && strings.Contains(o.Err, "stack") && strings.Contains(o.Err, "participle") && !strings.Contains(o.Err, "voedger/pkg"):
-			tags = append(tags, "C16-F17:deep-nesting-stack-overflow-in-parser")
+			tags = append(tags, "C16-F17:deep-nesting-stack-overflow-in-parser") // fixed 300f06f2c: a regression
 		case o.Stage == "died" && strings.Contains(o.Err, "stack") && strings.Contains(o.Err, "parser.lookupField") && hasFieldSetCycle(texts):
 			tags = append(tags, "C16-F9:field-set-cycle-stack-overflow-in-field-lookup") // fixed 87e6dec40: a regression
 		case o.Stage == "died" && strings.Contains(o.Err, "stack") && hasFieldSetCycle(texts):
@@ -69,15 +69,15 @@ func obsTags(o TextObs, texts []c17.PkgText) []string {
 		case strings.Contains(o.Err, "ACL filter") && strings.Contains(o.Err, "has no matches"):
 			tags = append(tags, "C16-F7:grant-matching-nothing-refused-by-build") // fixed 510061369: a regression
 		case strings.Contains(o.Err, "parameter type") && strings.Contains(o.Err, "should be") || strings.Contains(o.Err, "result type") && strings.Contains(o.Err, "should be"):
-			tags = append(tags, "C16-F12:function-parameter-kind-refused-by-build")
+			tags = append(tags, "C16-F12:function-parameter-kind-refused-by-build") // fixed fc0be6878: a regression
 		case strings.Contains(o.Err, "expected exactly 5 fields") && strings.Contains(o.Err, "cron schedule"):
-			tags = append(tags, "C16-F13:job-cron-with-seconds-refused-by-build")
+			tags = append(tags, "C16-F13:job-cron-with-seconds-refused-by-build") // fixed b868c7680: a regression
 		case strings.Contains(o.Err, "Limit") && strings.Contains(o.Err, "has no matches") && strings.Contains(o.Err, "TAGS("):
 			tags = append(tags, "C16-F14:limit-over-empty-tag-refused-by-build")
 		case sourceHas(texts, "ALTER WORKSPACE") && (strings.Contains(o.Err, "has no matches in Workspace") || strings.Contains(o.Err, "container") && strings.Contains(o.Err, "type") && strings.Contains(o.Err, "not found")):
 			tags = append(tags, "C16-F15:alter-workspace-names-leak-refused-by-build")
 		case sourceHasRe(texts, importAliasRe) && strings.Contains(o.Err, "invalid or unknown") && strings.Contains(o.Err, "type") && strings.Contains(o.Err, "not found"):
-			tags = append(tags, "C16-F16:import-alias-parameter-refused-by-build")
+			tags = append(tags, "C16-F16:import-alias-parameter-refused-by-build") // fixed 385a7f25a: a regression
 		default:
 			tags = append(tags, "build-failed-after-nil-error")
 		}
@@ -103,11 +103,11 @@ func obsTags(o TextObs, texts []c17.PkgText) []string {
 			only = only && strings.HasSuffix(l, "circular reference in field sets")
 		}
 		if only {
-			tags = append(tags, "C16-F5b:false-field-set-cycle")
+			tags = append(tags, "C16-F5b:false-field-set-cycle") // fixed 243abdcb2: a regression
 		}
 	}
 	if !o.Deterministic && strings.Contains(o.NonDet, " vs ") && !hasFieldSetCycle(texts) && sourceHasRe(texts, fieldSetRe) {
-		tags = append(tags, "C16-F5b:false-field-set-cycle")
+		tags = append(tags, "C16-F5b:false-field-set-cycle") // fixed 243abdcb2: a regression
 	}
 	if !o.Deterministic {
 		if o.RuleOrder {
@@ -474,7 +474,9 @@ func sourceHasRe(texts []c17.PkgText, re *regexp.Regexp) bool {
 }
 
 // the refusals of C16-F19: `invalid application definition: ` + one of these
-var refusals2 = []string{"maximum field length value is zero", "already exists: field", "not found: field", "runtime error: invalid memory address or nil pointer dereference"}
+// (three more - field length zero, a key field twice, a recovered nil dereference - are fixed by 9f80418f2 and
+// count as plain violations again)
+var refusals2 = []string{"not found: field"}
 
 func unpositionedRefusal(line string) bool {
 	if !strings.HasPrefix(line, "invalid application definition: ") {
